@@ -127,6 +127,30 @@ theorem c02_djb2 (retrieve : Idx → Option Rule) (ext : Ext) (basic : List NetR
       (specDns ext basic (L.map (·.1)) q) :=
   c02 djb2 Facts.shortcutLength (djb2_coherent _ (by decide)) retrieve ext basic L q hlen hret hparse hbasic
 
+/-- `matched` is true iff a basic rule or a host entry was found. -/
+theorem c02_matched_iff (hf : HashFns) (k : Nat) (retrieve : Idx → Option Rule) (ext : Ext)
+    (basic : List NetRule → Option NetRule) (d : DnsEngine) (q : Request) :
+    (d.matchRequest hf k retrieve ext basic q).matched = true ↔
+      (d.matchRequest hf k retrieve ext basic q).networkRule.isSome = true ∨
+      (d.matchRequest hf k retrieve ext basic q).v4 ≠ [] ∨ (d.matchRequest hf k retrieve ext basic q).v6 ≠ [] := by
+  unfold DnsEngine.matchRequest
+  by_cases hq : q.hostname.isEmpty = true
+  · simp [hq]
+  · simp only [hq, Bool.false_eq_true, if_false]
+    cases hb : basic (d.net.matchAll hf k (retrieveNet retrieve) ext q) with
+    | some r => simp
+    | none =>
+      simp only
+      by_cases hrr : (d.matchLookupTable hf retrieve q.hostname).isEmpty = true
+      · simp [hrr]
+      · simp only [hrr, Bool.false_eq_true, if_false, true_iff, Option.isSome_none, false_or]
+        cases hl : d.matchLookupTable hf retrieve q.hostname with
+        | nil => rw [hl] at hrr; simp at hrr
+        | cons h t =>
+          by_cases h4 : h.ip.is4 = true
+          · left; simp [h4]
+          · right; simp [h4]
+
 /-- An empty host name yields the empty result, not matched. -/
 theorem c02_empty_hostname (hf : HashFns) (k : Nat) (retrieve : Idx → Option Rule) (ext : Ext)
     (basic : List NetRule → Option NetRule) (d : DnsEngine) (q : Request) (hq : q.hostname = []) :
